@@ -231,7 +231,7 @@ func init() {
 	register(&Prop{
 		ID:    "C12",
 		Level: "model_checking",
-		Rule:  "stateless DFS by replay over the controlled scheduler: every execution of each pipeline scenario with at most P preemptions and M non-sorted map iteration orders (all permutations of maps of <=5 keys); an execution is non-trivial when it deviates from the canonical schedule at >=1 point; states = distinct happens-before state keys, transitions = choices executed beyond replayed prefixes",
+		Rule:  "stateless DFS by replay over the controlled scheduler. Per scenario (see bounds.mode_per_scenario) either mode U: EVERY interleaving and every map iteration order (all permutations of maps of <=5 keys; larger maps: sorted, reversed, rotations, adjacent swaps), pruned only by happens-before equivalence of prefixes; or PxMy: every execution with at most x preemptions and y non-sorted map orders; or DxMy: at most x non-default scheduling choices of any kind. Every execution must produce the observation (outcome, error, output bytes) of the canonical schedule, which must equal the real binary's for --threads 1,2,3,4,8,16 x GOMAXPROCS 1,4,16. An execution is non-trivial when it deviates from the canonical schedule at >=1 point; states = distinct happens-before state keys, transitions = choices executed beyond replayed prefixes",
 		Assumptions: []string{
 			"code between two synchronisation points is goroutine-local (no unsynchronised shared access): checked separately by the free-running -race pass, not by the scheduler",
 			"github.com/biogo/hts/sam and the standard library are not instrumented; they start no goroutines on these paths",
